@@ -87,41 +87,6 @@ func c20EsdtFlags(b []byte) (string, string) {
 
 // ---------- address classification ----------
 
-func allEq(b []byte, v byte) bool {
-	for _, x := range b {
-		if x != v {
-			return false
-		}
-	}
-	return true
-}
-
-// reference predicates, from the documented address format: a contract address is longer than
-// NumInitCharactersForScAddress and starts with NumInitCharactersForScAddress-VMTypeLen zero bytes (the all-zero
-// address counts); a metachain contract additionally has the 15 bytes after the identifier zero and an all-0xff,
-// non-empty shard identifier; the system account is recognised by its first 30 bytes.
-func refIsSC(a []byte) bool {
-	if len(a) <= vmcommon.NumInitCharactersForScAddress {
-		return false
-	}
-	return allEq(a[:vmcommon.NumInitCharactersForScAddress-vmcommon.VMTypeLen], 0)
-}
-
-func refIsMetaID(id []byte) bool { return len(id) > 0 && allEq(id, 0xff) }
-
-func refIsSCOnMeta(id, a []byte) bool {
-	const metaZeros = 15
-	if len(a) <= vmcommon.NumInitCharactersForScAddress+metaZeros {
-		return false
-	}
-	return refIsMetaID(id) && refIsSC(a) &&
-		allEq(a[vmcommon.NumInitCharactersForScAddress:vmcommon.NumInitCharactersForScAddress+metaZeros], 0)
-}
-
-func refIsSystemAccount(a []byte) bool {
-	return len(a) >= 30 && bytes.Equal(a[:30], vmcommon.SystemAccountAddress[:30])
-}
-
 func c20Address(id, a []byte) (string, string) {
 	var sc, meta, sys, empty, mid bool
 	if p := noPanic(func() {
